@@ -646,6 +646,9 @@ type replayFile struct {
 
 func (d *driver) writeReplay(res *TrialResult, min, orig []uint32, probe string) string {
 	dir := filepath.Join(d.verifDir, "replays")
+	if repo := os.Getenv("VERIF_REPO"); repo != "" && repo != "/repo" {
+		dir = filepath.Join(os.Getenv("VERIF_BUILD"), "replays")
+	}
 	os.MkdirAll(dir, 0755)
 	rf := &replayFile{Property: d.prop, Engine: d.engName(), Tier: d.tier, BaseSeed: d.seed, Trial: res.Trial, TrialSeed: res.Seed,
 		Violation: res.Violation, EventHash: res.EventHash, Choices: min, Original: orig, Trace: res.Trace}
@@ -832,6 +835,10 @@ func (d *driver) writeEvidence(a *aggregate, knownReport []map[string]interface{
 	}
 	b, _ := json.MarshalIndent(ev, "", " ")
 	dir := filepath.Join(d.verifDir, "evidence")
+	if repo := os.Getenv("VERIF_REPO"); repo != "" && repo != "/repo" {
+		// runs against a scratch copy never touch the evidence of the real tree
+		dir = filepath.Join(os.Getenv("VERIF_BUILD"), "evidence")
+	}
 	os.MkdirAll(dir, 0755)
 	if err := os.WriteFile(filepath.Join(dir, d.prop+".json"), b, 0644); err != nil {
 		fatalInfra("cannot write evidence: %v", err)
